@@ -271,8 +271,20 @@ CLAIMS["C20"] = {
     "technique": "keyword plumbing into the strategy factory, cache-key completeness, CFG dominance over the filter test",
 }
 
-NOT_APPLICABLE = {
-    "C18": "verdict is a predicate over a runtime tree of (operation, identifier values, status, parent link); no clause is "
-           "visible in the shape of the code that is both necessary and robust (pinning a comparison operator or range "
-           "literal would be a frozen source fragment) - see DESIGN.md §5",
+CLAIMS["C18"] = {
+    "text": "Decides only the structural skeleton of the two resource-lifecycle checks in the current source (the verdict "
+            "itself is a predicate over runtime histories and is NOT decided): (1) def-use - the status that decides "
+            "whether a related DELETE / the creating POST succeeded belongs to the response recorded for that very case; "
+            "(2) every _is_prefix_operation call builds each ResourcePath from one case, earlier case on the left, judged "
+            "request on the right; (3) dominance - UseAfterFree is raised only past the 404/5xx early exit, only for a "
+            "related DELETE on a prefix; EnsureResourceAvailability only for a 4xx answer, a successful POST parent on a "
+            "prefix, all parameters overridden by the link, and no successful DELETE of the resource in the tree; (4) the "
+            "history lookups walk the recorder's tree and CheckContext delegates to them. Not decided: the prefix / "
+            "identifier comparison heuristics (rstrip('s'), str() equality), soundness and completeness over all "
+            "histories - that needs enumeration of histories against a reference predicate, which is not this family.",
+    "design_ref": "DESIGN.md §4 C18 / §5",
+    "note": TRUSTED + "; necessary conditions only",
+    "technique": "def-use of the response whose status is tested, sibling agreement of the prefix-comparison arguments, CFG dominance of the accusations by the property's status tests",
 }
+
+NOT_APPLICABLE = {}
